@@ -5,7 +5,9 @@ ENTRY = {
         level_text="For generated route sets (deep backtracking, infix catch-alls, hostnames with and without port, many parameters, ignored trailing "
                    "slashes, custom methods) every request that the reference matcher says is served by a route is replayed after warm-up with a pre-built "
                    "request, a no-op writer and an empty handler; the number of heap allocations over 20 requests is read from runtime.MemStats with the GC "
-                   "disabled. A violation is at least one allocation per request in three consecutive measurements.",
+                   "disabled. A violation is at least one allocation per request in three consecutive measurements. The same measurement is taken for the other "
+                   "entry points that route a request to its route: Router.Lookup (with a writer and with nil) followed by Close, and Router.Reverse. Route sets "
+                   "include size thresholds (fan-out 16-78, 8-40 nested prefixes, 8-32 parameters) and requests in which a wildcard captures '.' or '..'.",
         level_note="Sporadic allocations (fewer than one per request) are counted but not attributed to the router (other goroutines of the test binary may allocate); "
                    "requests answered by redirect/404/405 are out of scope of the property and excluded by construction.",
         rule="cases: (options, route set, served request); non-trivial = the serving route has a wildcard, or a hostname route / hostname fallback was involved, or the "
